@@ -141,7 +141,8 @@ func parseAll(outdir string, texts []string) []parseObs {
 		if err != nil {
 			panic(err)
 		}
-		cmd.Stderr = nil
+		var stderr bytes.Buffer
+		cmd.Stderr = &stderr
 		if err := cmd.Start(); err != nil {
 			panic(err)
 		}
@@ -191,7 +192,11 @@ func parseAll(outdir string, texts []string) []parseObs {
 		}
 		cmd.Wait()
 		if current >= 0 { // died while working on current
-			res[current] = parseObs{Res: 2}
+			msg := stderr.String()
+			if len(msg) > 300 {
+				msg = msg[:300]
+			}
+			res[current] = parseObs{Res: 2, Error: msg}
 			start = current + 1
 		}
 	}
@@ -311,6 +316,9 @@ func genPool(rng *hx.Rng, n int, reserved map[string]bool) *structPool {
 		}
 		s := &gty{kind: 'S', name: name}
 		m := rng.Intn(4)
+		if rng.Chance(0.12) {
+			m = 5 + rng.Intn(12)
+		}
 		seen := map[string]bool{}
 		for len(s.fields) < m {
 			f := genIdent(rng)
@@ -642,7 +650,9 @@ func runC18(res *hx.Result, rng *hx.Rng, tier string, outdir string) {
 		"interface I\n fn f()\nend", "interface I\n fn f() //uid:5\nend", "interface I\n fn f() //uid: 5\nend", "interface I\n fn f() //uid:\t5x\nend",
 		"interface I\n fn f() //uid:-5\nend", "interface I\n fn f() //uid:+5\nend", "interface I\n fn f() //uid:4294967295\nend", "interface I\n fn f() //uid:4294967296\nend",
 		"interface I\n fn f() //uid:99999999999999999999\nend", "interface I\n fn f() //uid:000000000000000000000000000005\nend", "interface I\n fn f() //uid:1_0\nend", "interface I\n fn f() //uid:_\nend",
-		"interface I\n fn f() // uid:5\nend", "interface I\n fn f() //\n fn g()\nend", "interface I\n fn f() //", "interface I\n fn f() //uid:5", "interface I\n fn f() //UID:5\nend",
+		"interface I\n fn f() // uid:5\nend", "interface I\n fn f() //uid:0x1F\nend", "interface I\n fn f() //uid:017\nend", "interface I\n fn f() //uid:0b11\nend",
+		"interface I\n fn f() //uid:1e3\nend", "interface I\n fn a()\n sig b()\n sig c()\n prop d()\n prop e()\n fn g()\nend", "interface I\n sig a()\n sig b() //uid:100\nend",
+		"struct A\n a: int32\nend\nstruct A\n a: str\nend\ninterface I\n fn f(a: A) -> A\nend", "interface I\n fn f(a: A)\nend\nstruct A\n a: int32\nend\nstruct A\n b: str\nend", "interface I\n fn f() //\n fn g()\nend", "interface I\n fn f() //", "interface I\n fn f() //uid:5", "interface I\n fn f() //UID:5\nend",
 		"interface I\n fn f() -> int32 //uid:1\n fn f() -> str //uid:1\nend", "interface I\n fn a()\n sig b()\n prop c()\n fn d()\nend", "interface I\n fn registerEvent()\n fn x()\nend",
 		"interface I\n fn f(a: int32, b: str) -> Map<str,Vec<int32>>\nend", "interface I\n fn f(a: int32,) \nend", "interface I\n fn f(,)\nend", "interface I\n fn f(a int32)\nend",
 		"interface I\n fn f(a: strange)\nend", "interface I\n fn f(a: str ange)\nend", "interface I\n fn f(a: Tuple<>)\nend", "interface I\n fn f(a: Tuple<int32,>)\nend",
@@ -664,8 +674,38 @@ func runC18(res *hx.Result, rng *hx.Rng, tier string, outdir string) {
 			continue
 		}
 		var t string
-		kind := rng.Intn(6)
+		kind := rng.Intn(8)
 		switch kind {
+		case 6: // drop uid comments (all, or each with probability 1/2)
+			all := rng.Bool()
+			ls := strings.Split(base, "\n")
+			for i, l := range ls {
+				if p := strings.Index(l, "//uid:"); p >= 0 && (all || rng.Bool()) {
+					ls[i] = l[:p]
+				}
+			}
+			t = strings.Join(ls, "\n")
+		case 7: // a struct block declared twice, the copy with one member line changed, before or after
+			p := strings.Index(base, "struct ")
+			if p < 0 {
+				continue
+			}
+			e := strings.Index(base[p:], "end\n")
+			if e < 0 {
+				continue
+			}
+			block := base[p : p+e+4]
+			ls := strings.Split(block, "\n")
+			if len(ls) > 3 {
+				ls[1+rng.Intn(len(ls)-3)] = "\tzz: Vec<str>"
+			} else {
+				ls = append(ls[:1], append([]string{"\tzz: int8"}, ls[1:]...)...)
+			}
+			if rng.Bool() {
+				t = base + strings.Join(ls, "\n")
+			} else {
+				t = base[:p] + strings.Join(ls, "\n") + base[p:]
+			}
 		case 0, 1: // character level
 			b := []byte(base)
 			if len(b) == 0 {
@@ -788,7 +828,7 @@ func runC18(res *hx.Result, rng *hx.Rng, tier string, outdir string) {
 		switch o.Res {
 		case 2:
 			det := fmt.Sprintf("ParseIDL on %q ends the process (stack overflow)", p.text)
-			if selfRef(p.text) {
+			if selfRef(p.text) || strings.Contains(o.Error, "stack overflow") || strings.Contains(o.Error, "stack exceeds") {
 				res.FailKnown("parser-crash", det, "self_referential_struct_crash")
 				if !crashSeen {
 					crashSeen = true
